@@ -11,6 +11,7 @@ def run(chk):
     rules = core.load_json("rules/c14.json")
     # C03.a (shared with C14.a)
     labelvalid.run(chk, rules["label_valid_exceptions"])
+    labelvalid.run_bound_strict(chk)
 
     f = chk.facts(UNIT, funcs=r"asmjit::CodeHolder::(new_fixup|bind_label|resolve_cross_section_fixups)$|asmjit::CodeHolder_reset_containers$|asmjit::ResolveFixupIterator::",
                   records=r"^asmjit::ResolveFixupIterator$")
